@@ -18,7 +18,7 @@ LEVEL_TEXT = (
     "decision sequence up to length D; (3) every max_iterations m<=M on converging and diverging instances: steps executed <= m and either the "
     "reference result or InfiniteLoopError with the values of the m-step prefix."
 )
-LEVEL_NOTE = "reference = run_loop() in this module (plain Python while/do-while); the prefix trajectory for (3) is the step-observer record of the unbounded run of the same program"
+LEVEL_NOTE = 'reference = run_loop() in this module (plain Python while/do-while); the prefix trajectory for (3) is the step-observer record of the unbounded run of the same program; every program on both construction paths; mid-body entry also through with_entrypoint derived from a graph object that already ran'
 RULE = "templates x parameters enumerated exhaustively inside the bounds; states = distinct (template, parameters, step) scheduler states visited; transitions = supersteps executed"
 ASSUMPTIONS = ["loop-carried values are small integers; each body node adds 1", "signal-synchronised gates use default_open=True (a closed gate waiting on a signal emitted by its own target can never start, by construction)"]
 
